@@ -155,8 +155,34 @@ def run(ctx):
                                     raise exc
                                 w = world(kind, files)
                                 r = do(w, body)
-                                snap = w.snapshot(); wrote = [op for op in w.rec.log if op[0] != "openR"]; w.close()
+                                snap = w.snapshot(); wrote = [op for op in w.rec.log if op[0] != "openR"]
                                 case = dict(base_case, body_raises=type(exc).__name__, position=pos)
+                                # a history on the same untouched file: after the failed or cancelled block (which edited its
+                                # simfile object), a second block must start from what the file holds, and its backup must be
+                                # the original again - nothing of the abandoned edits may survive anywhere
+                                if pos > 0 and snap == files and rep % 2 == 0:
+                                    seen2 = {}
+                                    def body2(sf):
+                                        seen2["entry"] = objs.dump(sf)
+                                    try:
+                                        with simfile.mutate(w.path("in" + ext), backup_filename=w.path("second.bak"), filesystem=w.fs) as sf2:
+                                            body2(sf2)
+                                        r2 = "returned"
+                                    except BaseException as e2:
+                                        r2 = core.exc_name(e2)
+                                    snap2 = w.snapshot()
+                                    res.count("second_block_after_failed_block")
+                                    if r2 != "returned" or seen2.get("entry") != objs.dump(s0):
+                                        res.violation(dict(case, history="second mutate of the same file"), "after a failed/cancelled block, the next block does not start from the file's content", impl=r2)
+                                    else:
+                                        try:
+                                            bak2 = cls(string=snap2["second.bak"].decode(detected))
+                                            ok2 = objs.dump(bak2) == objs.dump(cls(string=str(s0)))
+                                        except Exception:
+                                            ok2 = False
+                                        if not ok2:
+                                            res.violation(dict(case, history="second mutate of the same file"), "after a failed/cancelled block, the next block's backup does not parse to the original simfile")
+                                w.close()
                                 res.case(case, nontrivial=pos > 0); res.traces += 1
                                 if snap != files or wrote:
                                     res.violation(case, "the body raised but something on the filesystem was created or modified", impl=sorted(set(snap) ^ set(files)) or wrote[:3]); continue
